@@ -7,7 +7,7 @@
 From Coq Require Import List NArith Bool.
 From NV Require Import Syntax.Token Syntax.Ast Syntax.StmtAst Syntax.StrEsc Syntax.Parser Syntax.Grammar
      Syntax.StrEscProofs Syntax.TypedPrinter Syntax.TypedPrinterProofs Syntax.FixedPoint
-     Syntax.TypeGrammar Syntax.StmtGrammar Syntax.DefEcho Syntax.Lexer Syntax.LexString Syntax.TypedPrinterSep.
+     Syntax.TypeGrammar Syntax.StmtGrammar Syntax.DefEcho Syntax.Lexer Syntax.LexString Syntax.TypedPrinterSep Syntax.FixedPointNeg Syntax.FixedPointNeg2.
 Import ListNotations.
 Local Open Scope N_scope.
 
@@ -94,6 +94,15 @@ Theorem C15_definition_echo_partial : forall e : edef,
   echoable e = true -> parse (pp_def e) = Ok [reread_def e] [].
 Proof. exact echo_def_roundtrip. Qed.
 Print Assumptions C15_definition_echo_partial.
+
+(* The fixed point without the restriction on negative literals (`consistent_n`: names agree with the
+   session; a negative scalar literal, e.g. the exponent of `x⁻¹`, is allowed): the re-elaborated tree
+   is `nneg e` (the literal becomes a negation), and the printer gives it the same echo in every mode. *)
+Theorem C15_fixed_point_neg : forall (is_unit is_fn : str -> bool) (e : texpr),
+  printable_t e = true -> exact_t e = true -> consistent_n is_unit is_fn e = true ->
+  exists u, parse (pp e) = Ok [StExpr u] [] /\ pp (lift is_unit is_fn u) = pp e.
+Proof. exact echo_fixed_point_neg. Qed.
+Print Assumptions C15_fixed_point_neg.
 
 (* NOT PROVED (partial): (1) for the temperature sugar forms `reread e` equals `erase e` only up
    to numbat's elaboration of `x °C` / `x -> °C` (not modelled), and the fixed point is not proved
@@ -209,4 +218,14 @@ Example C15_ex_interpolated_string :
   /\ erase e = EInterp [PFixed [113; 34; 123]%N;
                         PExpr (EBin Add (EIdent [97]%N) (EScalar [49]%N)) (Some [58; 46; 50; 102]%N);
                         PFixed [10]%N; PExpr (EString [125]%N) None].
+Proof. vm_compute. repeat split; reflexivity. Qed.
+
+(* x⁻¹: the exponent is the literal -1; the echo x^(-1) is read back as a negation, whose echo is the same *)
+Example C15_ex_fixed_point_negative_literal :
+  let e := XBin Power (x_ 120) (XScalar true [49]%N) in
+  printable_t e = true /\ exact_t e = true /\ consistent_n (fun _ => false) (fun _ => false) e = true
+  /\ consistent (fun _ => false) (fun _ => false) e = false
+  /\ pp e = [TIdent [120]; TPower; TLParen; TMinus; TNumber [49]; TRParen]%N
+  /\ lift (fun _ => false) (fun _ => false) (erase e) = XBin Power (x_ 120) (XNeg (XScalar false [49]%N))
+  /\ pp (lift (fun _ => false) (fun _ => false) (erase e)) = pp e.
 Proof. vm_compute. repeat split; reflexivity. Qed.
